@@ -8,6 +8,9 @@
 //!   pretty <hex>      parse; print every tree with Display and to_pretty(60); parse again; compare the printed trees
 //!   write <datum>     build the value, `(write d port)` into a string port; hex of the text
 //!   roundtrip <datum> write, then `(read (open-input-string text))`, then `(equal? d back)`
+//!   printrt <datum>   `(print d port)` (scheme/print.scm: the writer that quotes symbols with `|..|`), then
+//!                     `(read (open-input-string text))`; equal = the datum read back is `(quote d')` or a
+//!                     self-evaluating `d'` with `(equal? d d')`
 //!   eval <hex>        run the program text on a fresh-enough engine: ok <datum of last value> | err <first line> | panic ..
 //!   unitable          the two escape classifications of Rust's `{:?}` used by the writer
 //! stdout: one line per request (see the functions below), flushed per line.
@@ -328,7 +331,15 @@ fn do_pretty(src: &str) -> String {
         ("display", first.iter().map(|e| format!("{}", e)).collect::<Vec<_>>().join("\n")),
         ("pretty", first.iter().map(|e| e.to_pretty(60)).collect::<Vec<_>>().join("\n")),
     ] {
-        match Parser::parse(&text) {
+        // the printed text is new reader input: a panic on it is reported with that text (not as a failure on `src`)
+        let reparsed = match catch_unwind(AssertUnwindSafe(|| Parser::parse(&text))) {
+            Ok(r) => r,
+            Err(_) => {
+                res.push(format!("{}=reparse-panic:{}", name, hex(text.as_bytes())));
+                continue;
+            }
+        };
+        match reparsed {
             Ok(second) => {
                 // `==` on ExprKind compares source locations of lists, so compare the trees through
                 // their (location-free) printed form: same number of expressions, same text
@@ -358,6 +369,7 @@ const PRELUDE: &str = r#"
 (require-builtin #%private/steel/reader as c12reader.)
 (define (c12-write d) (let ((p (open-output-string))) (write d p) (get-output-string p)))
 (define (c12-read s) (read (open-input-string s)))
+(define (c12-print d) (let ((p (open-output-string))) (print d p) (get-output-string p)))
 (define (c12-new-reader) (c12reader.new-reader))
 "#;
 
@@ -548,6 +560,61 @@ fn do_roundtrip(w: &mut World, spec: &str, reset: &mut bool) -> String {
     )
 }
 
+/// `print` then `read`: the printed text is `'d`, so the datum read back must be `(quote d)`.
+fn do_printrt(w: &mut World, spec: &str, reset: &mut bool) -> String {
+    let d = match w.datum(spec) {
+        Ok(d) => d,
+        Err(e) => return format!("bad {}", e),
+    };
+    let text = match w.call("c12-print", vec![d.clone()]) {
+        Ok(SteelVal::StringV(s)) => s.as_str().to_string(),
+        Ok(other) => return format!("err print:{}", hex(format!("{}", other).as_bytes())),
+        Err(e) => return format!("err print:{}", hex(e.as_bytes())),
+    };
+    let all = catch_unwind(AssertUnwindSafe(|| read_all(&text)));
+    let (count, direct) = match &all {
+        Ok(Ok(vs)) => (vs.len() as isize, vs.first().map(dumps).unwrap_or_else(|| "none".into())),
+        Ok(Err(e)) => (-1, e.replace(' ', "_")),
+        Err(_) => (-2, "panic".into()),
+    };
+    // the printed text is an expression for `d`: `(quote d)`, or `d` itself when `d` evaluates to itself
+    let self_evaluating = !matches!(d, SteelVal::SymbolV(_) | SteelVal::ListV(_) | SteelVal::Pair(_));
+    let back = w.call("c12-read", vec![SteelVal::StringV(text.clone().into())]);
+    let (back_s, equal) = match &back {
+        Ok(b) => {
+            let quoted: Option<SteelVal> = match b {
+                SteelVal::ListV(l) if l.len() == 2 => match l.iter().next() {
+                    Some(SteelVal::SymbolV(s)) if s.as_str() == "quote" => l.iter().nth(1).cloned(),
+                    _ => None,
+                },
+                _ => None,
+            };
+            let (x, allowed) = match quoted {
+                Some(x) => (x, true),
+                None => (b.clone(), self_evaluating),
+            };
+            let eq = allowed
+                && match w.call("equal?", vec![d.clone(), x]) {
+                    Ok(SteelVal::BoolV(x)) => x,
+                    _ => false,
+                };
+            (dumps(b), eq)
+        }
+        Err(e) => (format!("E{}", hex(e.as_bytes())), false),
+    };
+    if !(equal && count == 1) {
+        *reset = true;
+    }
+    format!(
+        "text={} back={} equal={} count={} direct={}",
+        hex(text.as_bytes()),
+        back_s.replace(' ', "_"),
+        equal,
+        count,
+        direct.replace(' ', "_")
+    )
+}
+
 fn unitable() {
     // classification of every scalar value by the two Rust formatters the writer relies on:
     //   S = how `{:?}` of a str prints the char: l(iteral) n(amed backslash escape) u(\u{..})
@@ -645,7 +712,7 @@ fn main() {
                 }
                 _ => "bad hex".to_string(),
             },
-            "write" | "roundtrip" => {
+            "write" | "roundtrip" | "printrt" => {
                 if world.is_none() {
                     world = Some(World::new());
                 }
@@ -655,6 +722,8 @@ fn main() {
                     catch_unwind(AssertUnwindSafe(|| {
                         if op == "write" {
                             do_write(w, arg)
+                        } else if op == "printrt" {
+                            do_printrt(w, arg, &mut reset)
                         } else {
                             do_roundtrip(w, arg, &mut reset)
                         }
